@@ -93,6 +93,8 @@ def install_recorder():
     def w_dist(self, added_hash, removed_hash, added_hash_obj, removed_hash_obj, _original_type=None):
         key = ("d", DeepDiff._get_distance_cache_key(added_hash, removed_hash))
         node = enter(self, "d", key[1])
+        if node is not None:
+            node["orient"] = bool(added_hash > removed_hash)
         ok = False
         try:
             out = orig_dist(self, added_hash, removed_hash, added_hash_obj, removed_hash_obj, _original_type)
@@ -162,6 +164,54 @@ def flatten(nodes, out=None):
     return out
 
 
+def asymmetric_keys(t1, t2, rep):
+    """distance-cache keys for which the cache-less run computes the rough distance in BOTH
+    orientations of the hash pair with different values (the key is symmetric, the distance is not)"""
+    from deepdiff import DeepDiff
+    with MemoRecording() as rec:
+        try:
+            DeepDiff(copy.deepcopy(t1), copy.deepcopy(t2), ignore_order=True, report_repetition=rep)
+        except Exception:  # noqa
+            return []
+    by = {}
+    for n in flatten(rec["roots"]):
+        if n["kind"] == "d":
+            by.setdefault(n["key"], {}).setdefault(n.get("orient"), set()).add(n["value"])
+    return [k for k, o in by.items() if len(o) == 2 and o[True] != o[False]]
+
+
+def k17_match(case):
+    """a settings failure (result with cache != result without) of an ignore-order run in which some
+    hash pair's distance is needed in both orientations with different values"""
+    if case.get("kind") != "settings" or not case.get("ignore_order") or not case.get("cache_size"):
+        return False
+    t1, t2 = c05.from_repr(case["t1"]), c05.from_repr(case["t2"])
+    return bool(asymmetric_keys(t1, t2, case.get("report_repetition", False)))
+
+
+MATCHERS = {"C17-K17-symmetric-distance-key": k17_match}
+
+_L9 = [1, 2, 3, 4, 5, 6, 7, 8, 9]
+K17_WITNESS = ([['u', 'b1', 'b2', 'b3', 'b4'], [list(_L9), 'a1', 'a2', 'a3', 'a4'], 'x1', 'x2', 'x3', 'x4'],
+               [[list(_L9), 'b1', 'b2', 'b3', 'b4'], ['u', 'a1', 'a2', 'a3', 'a4'], 'x1', 'x2', 'x3', 'x4'])
+
+
+def replay_witnesses(ctx):
+    """the defect behind C17_cache_transparent_refuted, on the implementation"""
+    from deepdiff import DeepDiff
+    t1, t2 = K17_WITNESS
+    d1 = DeepDiff(list(_L9), 'u', get_deep_distance=True).get('deep_distance')
+    d2 = DeepDiff('u', list(_L9), get_deep_distance=True).get('deep_distance')
+    k1 = DeepDiff._get_distance_cache_key('aa', 'bb')
+    k2 = DeepDiff._get_distance_cache_key('bb', 'aa')
+    if d1 == d2 or k1 != k2:
+        ctx.break_("correspondence", {"name": "C17_cache_transparent_refuted", "detail": "rough distance is now symmetric or the distance cache key is now ordered: "
+                                      "the refutation witness (same key, two values) no longer describes the code", "d(L,'u')": d1, "d('u',L)": d2})
+    elif DeepDiff(copy.deepcopy(t1), copy.deepcopy(t2), ignore_order=True) == DeepDiff(copy.deepcopy(t1), copy.deepcopy(t2), ignore_order=True, cache_size=5000):
+        ctx.break_("correspondence", {"name": "C17_cache_transparent_refuted", "detail": "the K17 witness no longer gives different results with and without cache"})
+    ctx.note("refuted_witnesses_replayed", ["C17_cache_transparent_refuted (same key, two values: d(L,'u')=%r, d('u',L)=%r, one cache key)" % (d1, d2)])
+
+
 # ---------------------------------------------------------------------------
 # running the implementation
 # ---------------------------------------------------------------------------
@@ -193,22 +243,33 @@ def text_result(t1, t2, **kw):
 def planted(rng):
     """a shared pool of sub-lists planted into several sibling lists on both
     sides; t2 holds near-duplicates, so the SAME pair of sub-lists is compared
-    under several parents"""
+    under several parents (cache hits) and many distinct pairs occur (evictions).
+    Unless `mixed`, every item is a list of `width` distinct ints, which keeps the
+    rough distance symmetric (the guard of C17_cache_transparent_partial)."""
     npool = rng.randint(3, 6)
-    pool = [[rng.randint(0, 9) for _ in range(rng.randint(4, 7))] for _ in range(npool)]
+    mixed = rng.random() < 0.3      # str markers / ragged sub-lists: distances are then often asymmetric (finding C17-K17)
+    width = rng.randint(4, 7)
+
+    def fresh(lo, hi):
+        return rng.sample(range(lo, hi), width)
+    pool = [([rng.randint(0, 9) for _ in range(rng.randint(4, 7))] if mixed else fresh(0, 30)) for _ in range(npool)]
     near = []
     for p in pool:
         q = list(p)
-        q[rng.randrange(len(q))] = rng.randint(10, 19)
+        q[rng.randrange(len(q))] = rng.randint(40, 49)
         near.append(q)
+
+    def marker(s):
+        return ("u%d" % s) if mixed else [100 + 10 * s + i for i in range(width)]
+    consts = ["c", "d"] if mixed else [[200 + i for i in range(width)], [300 + i for i in range(width)]]
     nsib = rng.randint(3, 5)
     t1, t2 = [], []
     for s in range(nsib):
         k = rng.randint(2, npool)
         idx = rng.sample(range(npool), k)
-        a = [copy.deepcopy(pool[i]) for i in idx] + ["u%d" % s, "c", "d"]
+        a = [copy.deepcopy(pool[i]) for i in idx] + [marker(s)] + copy.deepcopy(consts)
         changed = set(rng.sample(idx, rng.randint(1, max(1, k - 1))))
-        b = [copy.deepcopy(near[i] if i in changed else pool[i]) for i in idx] + ["u%d" % s, "c", "d"]
+        b = [copy.deepcopy(near[i] if i in changed else pool[i]) for i in idx] + [marker(s)] + copy.deepcopy(consts)
         rng.shuffle(b)
         t1.append(a)
         t2.append(b)
@@ -394,10 +455,16 @@ def _trace_task(args):
         vid.setdefault(n["value"], len(vid) + 1)
     # hypothesis of the theorem on the recorded tree: same key => same value
     by_key = {}
-    consistent = True
-    for n in fp + fc:
-        if by_key.setdefault((n["kind"], n["key"]), n["value"]) != n["value"]:
-            consistent = False
+    for n in fp:                      # the cache-less run: what each key's value IS
+        by_key.setdefault((n["kind"], n["key"]), []).append(n)
+    consistent = "yes"
+    for (kind, _k), ns in by_key.items():
+        if len({n["value"] for n in ns}) > 1:
+            # explained by the symmetric distance key (both orientations of one hash pair, each with its own value)?
+            if kind == "d" and all(len({n["value"] for n in ns if n.get("orient") == o}) <= 1 for o in (True, False)):
+                consistent = "asymmetric-distance" if consistent == "yes" else consistent
+            else:
+                consistent = "no"
     sched = schedule(cached)
     expr = "run_trace %d %s (%s)" % (cs, core.coq_list("true" if b else "false" for b in sched), coq_prog(pure, kid, vid))
     cexpr = "check_consistent (%s)" % coq_prog(pure, kid, vid)
@@ -420,8 +487,13 @@ def correspondence(ctx, inputs, pool):
         if not same:
             ctx.fail(dict(tag, kind="settings", ignore_order=True, cache_purge_level=1),
                      "the result with cache_size=%r cache_tuning_sample_size=%r differs from the result without cache" % (cs, tune))
-        if not consistent:
-            ctx.break_("correspondence", dict(tag, what="two memoised calls with the same key returned different values (hypothesis `consistent` of C17_cache_transparent fails on this run)"))
+        if consistent == "no":
+            ctx.break_("correspondence", dict(tag, what="two memoised calls with the same key (and, for distances, the same orientation) returned different values: hypothesis `consistent` of C17_cache_transparent_partial fails on this run"))
+            continue
+        if consistent == "asymmetric-distance":
+            # finding C17-K17: outside the guard of the theorem; the cached run may legitimately diverge from the prediction
+            ctx.count("trace:asymmetric_distance_key(guard `consistent` fails: finding C17-K17)")
+            continue
         if ncalls == 0:
             ctx.count("trace:no_lookup")
             continue
@@ -526,6 +598,8 @@ def run(ctx):
     n_pl = 40 if ctx.thorough else 8
     n_ot = 60 if ctx.thorough else 10
     inputs = gen_inputs(rng, n_pl, n_ot)
+    replay_witnesses(ctx)
+    inputs.append(K17_WITNESS + ("k17-witness",))
     for a, b, kind in inputs[:2] + inputs[n_pl:n_pl + 1]:
         ctx.sample({"t1": repr(a)[:400], "t2": repr(b)[:400], "shape": kind})
     with mp.get_context("fork").Pool(core.NCPU) as pool:
